@@ -1,5 +1,6 @@
 mod adapter;
 mod alloc;
+mod drive;
 mod replay;
 mod tables;
 mod units;
@@ -376,6 +377,16 @@ fn main() {
         Some("replay") => cmd_replay(&args[2..]),
         Some("tables") => cmd_tables(&args[2..]),
         Some("streams") => cmd_streams(&args[2..]),
+        Some("drive") => {
+            let a = &args[2..];
+            drive::cmd_drive(
+                arg(a, "--seed").and_then(|s| s.parse().ok()).unwrap_or(0),
+                arg(a, "--threads").and_then(|s| s.parse().ok()).unwrap_or(4),
+                arg(a, "--ops").and_then(|s| s.parse().ok()).unwrap_or(500),
+                arg(a, "--faults").map(|s| s == "1").unwrap_or(false),
+                &arg(a, "--out").expect("--out"),
+            )
+        }
         _ => {
             eprintln!("usage: taverif replay --prop Cxx --tier quick|thorough --seed N --in FILE --out FILE");
             2
